@@ -23,6 +23,7 @@ KIND_NAMES = {
     1502: 'C15/http_query: HTTP announce query vs Tracker.http_query',
     1503: 'C15/announcer: PeriodicalAnnouncer events and gaps vs Announcer.v (timing tolerance -25/+600 ms)',
     1602: 'C16/udp_parse: parseAnnounceResponse vs Tracker.parse_udp_announce',
+    1604: 'C16/http_nesting: HTTP tracker response with an unknown key nested 1 .. 1,500,000 deep (closed or not), response limit 2 MiB, vs Meta.run_net_nesting',
     1603: 'C16/http_parse: HTTP response interpretation vs Tracker.http_response',
     301: 'C03/cached_read: cachedpiece.ReadAt vs Cache.cached_read',
     302: 'C03/cache: piececache.Cache vs Cache.cache_get (LRU)',
@@ -32,6 +33,7 @@ KIND_NAMES = {
     1802: 'C18/stree: stree.Contains vs Stree.build/contains',
     1804: 'session/ban_dial: MaxPeerDial 1, the address of a connected scripted peer waits in the address list, the peer delivers a corrupt (or, as a control, a correct) piece, then the dial slot is freed: banned => not dialled; control => dialled',
     1803: 'C18/addrlist: addrlist Push/Pop/Reset vs AddrList.v',
+    1106: 'C08/ext_nesting: extension handshake with an unknown key nested 1 .. 1,500,000 deep (closed or not) through a real PeerReader vs Meta.run_net_nesting; a crash of the process is the observation no model output matches',
     1105: 'C03/writer_queue: peerwriter with a blocked connection: pieces, choke, cancelled requests, other messages, queue bound 1..4 with and without the fast extension, then the connection is released: bytes written and upload counter vs Wire.run_wqueue',
     1101: 'C11/writer: peerwriter bytes vs Wire.enc_go (+ upload counter)',
     1102: 'C11/reader: peerreader messages vs Wire.parse',
@@ -85,7 +87,7 @@ PROPS = {
         'assumptions': ['only the client writes to the files during the history (external changes are C04)'],
     },
     'C08': {
-        'kinds': {1102: {'quick': 2500, 'thorough': 60000}, 1103: {'quick': 48, 'thorough': 600}, 101: {'quick': 1500, 'thorough': 40000}, 1303: {'quick': 1500, 'thorough': 40000}, 303: {'quick': 1500, 'thorough': 30000}},
+        'kinds': {1102: {'quick': 2500, 'thorough': 60000}, 1103: {'quick': 48, 'thorough': 600}, 101: {'quick': 1500, 'thorough': 40000}, 1303: {'quick': 1500, 'thorough': 40000}, 303: {'quick': 1500, 'thorough': 30000}, 1106: {'quick': 300, 'thorough': 5000}},
         'trusted': ['the dispatch of torrent.run() is generated from its source (bin/gen_dispatch.py) for the stepped loop', 'Go runtime: a panic in a handler is caught by the harness and reported as a crash; a handler that does not return within the per-case limit is reported as a hang'],
         'assumptions': [],
     },
@@ -166,7 +168,7 @@ PROPS = {
         'assumptions': [],
     },
     'C16': {
-        'kinds': {1601: {'quick': 1500, 'thorough': 20000}, 1602: {'quick': 3000, 'thorough': 60000}, 1603: {'quick': 800, 'thorough': 10000}},
+        'kinds': {1601: {'quick': 1500, 'thorough': 20000}, 1602: {'quick': 3000, 'thorough': 60000}, 1603: {'quick': 800, 'thorough': 10000}, 1604: {'quick': 300, 'thorough': 5000}},
         'trusted': ['sync/atomic CompareAndSwap/Load are linearizable (the model runs an announce as two atomic steps)',
                     'Go scheduler: the scripted member blocks inside Announce, so the harness decides the order of loads and CASes'],
         'assumptions': ['tier size fits int32; index never reaches 2^31 (true with the fix: it stays below n)'],
